@@ -267,7 +267,11 @@ def run_verus(prop, tier, seed=0, repo=None):
             hard = [e for e in errors if e['code'] or 'rlimit' in e['text'].lower() or 'resource limit' in e['text'].lower()
                     or 'not supported' in e['kind'] or 'unsupported' in e['kind'].lower()]
             if res.get('encountered-vir-error') or hard or (rc != 0 and not errors) or 'verified' not in res:
-                rejected = 'the generated text was rejected or a resource limit was hit (not a verdict): %s' % ((hard[0]['text'] if hard else err[-800:])[:900])
+                detail = (hard[0]['text'] if hard else err[-800:])[:900]
+                if 'rlimit' in detail.lower() or 'resource limit' in detail.lower():
+                    rejected = 'a Verus resource limit (rlimit) was hit (not a verdict): %s' % detail
+                else:
+                    rejected = 'the generated text was rejected by rustc / Verus (not a verdict): %s' % detail
                 break
             if rnd == 0:
                 try:
